@@ -190,6 +190,11 @@ def circusFrame (rows cols : Nat) (picks : List (List Nat)) : Option (List Bool)
 Coordinates are exact rationals with a common denominator `den` (a candidate `q = (qx, qy) / den`), the
 radii are constant (`rx = ry = r / den`); only what decides acceptance and the list sizes is modelled. -/
 
+/-- `VariableDensityPoissonMaskFunc.poisson` clips both per-pixel radii from below at one pixel before they
+reach the kernel (`np.clip(…, 1, None)`); for non-square k-spaces the unclipped radius along the short axis
+is `(1 + r·slope)·short/long < 1` near the centre. -/
+def poissonRadiusFloor : List (String × Int) := [("radius_x", 1), ("radius_y", 1)]
+
 structure PoissonState where
   mask : List Bool            -- nx × ny, row-major
   actives : List (Nat × Nat)  -- `pxs[:num_actives], pys[:num_actives]`
